@@ -74,6 +74,7 @@ class World:
         self.user_tasks: list = []
         self.messages: list[dict] = []  # socket-level received messages
         self.snapshots: list[tuple] = []
+        self.leaks: list[dict] = []
         self.hooks: dict[str, list] = {}
         self.verdict = "ok"
         self.error = None
@@ -383,6 +384,20 @@ class World:
             await self.sock.send_with_header(hdr, msg, adapter.policy_of(step.get("policy", "idem")))
 
         self._spawn_user(step, go)
+
+    def op_user_leakcheck(self, step) -> None:
+        """What the client still has scheduled / open right now."""
+        utasks = set(self.user_tasks)
+        live = [t for t in self.loop.live_tasks() if t not in utasks and not _is_main(t)]
+        self.leaks.append({
+            "t": self.loop._vtime, "label": step.get("label", ""),
+            "tasks": [_coro_name(t) for t in live],
+            "timers": [(h._when, _cb_name(h)) for h in self.loop.pending_timers()],
+            "live_links": [l.id for l in self.net.live_links()],
+            "open_links": [l.id for l in self.net.open_links()],
+            "busy_user_calls": [c["id"] for c in self.calls if c["t_call"] is not None and c["t_ret"] is None],
+        })
+        self.trace.add("user.leakcheck", tasks=len(live))
 
     def op_user_snapshot(self, step) -> None:
         self.take_snapshot(step.get("label", ""))
